@@ -201,6 +201,56 @@ theorem fact_check_dominates_exec :
 theorem fact_config_perm_rule :
     seqValidate = ["validateSensors", "validateCurves", "validateFans", "containsCmdSensors", "containsCmdFan", "checkPerm"] := by decide
 
+
+/-! ### C11: the validator's checks, as the sequence of its error messages in source order -/
+
+/-- The model `Model/Config.lean` states the validator's checks in exactly this order (one `VErr` constructor per
+    message). A removed, added or reordered check changes the regenerated sequence and breaks this theorem, also
+    where the configuration generators never produce the distinguishing input. -/
+theorem fact_validator_checks :
+    seqOf "validation:validateSensors" = [
+      "duplicate sensor id detected: %s",
+      "sensor %s: only one sensor type can be used per sensor defin",
+      "sensor %s: sub-configuration for sensor is missing, use one ",
+      "sensor %s: invalid index, must be >= 1"] ∧
+    seqOf "validation:validateCurves" = [
+      "duplicate curve id detected: %s",
+      "curve %s: only one curve type can be used per curve definiti",
+      "curve %s: sub-configuration for curve is missing, use one of",
+      "curve %s: unsupported function type '%s', use one of: %s",
+      "curve %s: function curves must reference at least one curve",
+      "curve %s: a curve cannot reference itself",
+      "curve %s: no curve definition with id '%s' found",
+      "curve %s: missing sensorId",
+      "curve %s: no sensor definition with id '%s' found",
+      "curve %s: steps must contain at least one entry",
+      "curve %s: missing sensorId",
+      "curve %s: no sensor definition with id '%s' found",
+      "curve %s: all PID constants are zero"] ∧
+    seqOf "validation:validateFans" = [
+      "duplicate fan id detected: %s",
+      "fan %s: only one fan type can be used per fan definition blo",
+      "fan %s: sub-configuration for fan is missing, use one of: hw",
+      "fan %s: missing curve definition in configuration entry",
+      "fan %s: no curve definition with id '%s' found",
+      "fan %s: controlAlgorithm must be one of: direct | pid",
+      "fan %s: invalid maxPwmChangePerCycle, must be > 0",
+      "fan %s: all PID constants are zero",
+      "fan %s: must have one of index or rpmChannel, must be >= 1",
+      "fan %s: invalid index, must be >= 1",
+      "fan %s: invalid rpmChannel, must be >= 1",
+      "fan %s: invalid pwmChannel, must be >= 1",
+      "fan %s: no file path provided",
+      "fan %s: missing setPwm configuration",
+      "fan %s: setPwm executable is missing",
+      "fan %s: missing getPwm configuration",
+      "fan %s: getPwm executable is missing"] ∧
+    seqOf "validation:validateNoLoops" = [
+      "you have created a curve dependency cycle: %v"] ∧
+    seqOf "validation:validateConfig" = [
+      "config file '%s' has invalid permissions: %s"] := by
+  refine ⟨?_, ?_, ?_, ?_, ?_⟩ <;> decide
+
 /-! ### C15: CLI bodies re-stated in the harness -/
 
 theorem fact_cli_bodies :
